@@ -218,6 +218,9 @@ def rewrite_split_ops(tens, arch, nng):
 def _reads_ifm_one_to_one(op):
     # True if the OFM coordinates of the op are also its IFM coordinates: no striding, no padding and no upscaling.
     # Only then does adding a read offset to the IFM box give the part of the IFM that is to be read
+    if op.type == Op.Memcpy:
+        # A DMA copies a contiguous range, it cannot pick a sub-box out of its source
+        return False
     if op.kernel.stride.x != 1 or op.kernel.stride.y != 1:
         return False
     if op.ifm_resampling_mode != resampling_mode.NONE or op.type.is_resize_op() or op.original_type.is_resize_op():
